@@ -411,14 +411,18 @@ pub fn run(seed: u64, count: usize, max_n: usize, mode: &str, out: &mut impl Wri
         return;
     }
     for i in 0..count {
-        let n = if rng.chance(1, 10) { rng.below(3) } else { rng.range(1, max_n) };
-        let ser = gen_ser(&mut rng);
+        let big = mode == "big";
+        let n = if big { rng.range(max_n / 2, max_n) } else if rng.chance(1, 10) { rng.below(3) } else { rng.range(1, max_n) };
+        // big: label parts beyond the 8 KiB writer buffers
+        let ser = if big { rng.pick(&[Ser::Fixed(64), Ser::Fixed(32), Ser::Fixed(61), Ser::Gamma]) } else { gen_ser(&mut rng) };
         let lg = gen_lgraph(&mut rng, n, ser);
         let c = nameable_conf(&mut rng, n);
         // the sequential entry points have no part files: a zstd configuration is sampled less often there
         let zstd = if mode == "seq" { rng.chance(1, 6) } else { rng.chance(1, 2) };
-        let (how, path, cuts, threads, order): (How, &str, Vec<usize>, usize, Option<Vec<usize>>) = match mode {
-            "seq" => {
+        let zstd = if big { rng.chance(2, 3) } else { zstd };
+        let seq_path = mode == "seq" || (big && !zstd && rng.chance(1, 3));
+        let (how, path, cuts, threads, order): (How, &str, Vec<usize>, usize, Option<Vec<usize>>) = match seq_path {
+            true => {
                 if rng.chance(1, 2) { (How::CompGraph, "comp_labeled_graph", vec![0, n], 1, None) }
                 else { (How::CompLender, "comp_labeled_lender", vec![0, n], 1, None) }
             }
